@@ -14,12 +14,9 @@ EXTRA_TRUSTED = [
     "little-endian target: BUint::to_le / uN::to_le are the identity, a digit is the little-endian decoding of its bytes",
 ]
 ASSUMPTIONS = [
-    "C20 theorems about ranges take as explicit premises (coq/Proofs/RandomDeps.v, closed Props, no axioms) the specs of "
-    "functions owned by other properties: widening_mul_spec (C02), wrapping_add_spec / wrapping_sub_spec / "
-    "I_overflowing_sub_spec (C01), rem_spec (C03), shl_spec (C05), leading_zeros_spec (C06), and for the total (no-panic) "
-    "forms also U_overflowing_sub_flag_spec / I_overflowing_sub_flag_spec (C01) and icmp_spec (C07); the pure-Z theorems "
-    "(accept_bij, accept_count, zone_ok_*), Standard / decode_le / fill_slice theorems, Add<Digit> and the fuel lemma "
-    "are unconditional",
+    "the facts about other models the C20 proofs use (coq/Proofs/RandomDeps.v: widening_mul, wrapping add/sub, signed sub, rem, shl, "
+    "leading_zeros, comparison) were developed as explicit premises and are discharged by the proved theorems of C01/C02/C03/C05/"
+    "C06/C07 in coq/Proofs/DischargeRandom.v; every theorem of coq/Properties/C20.v is premise-free",
 ]
 
 SMALL = [(8, 1), (8, 2), (16, 1)]          # BITS <= 16: zone by `% range` in sample_single_inclusive
